@@ -273,7 +273,7 @@ Lemma step_SI c s e :
   0 <= c_off c -> shyp c (step c s e) -> wc_ev_ok c s e = true -> SI c s -> SI c (step c s e).
 Proof.
   intros Hoff Hh' Hok HI. pose proof (shyp_step_back c s e Hh') as Hh.
-  destruct e as [svc k m|from until ab|now until ab| |p|ab]; cbn [wc_ev_ok] in Hok.
+  destruct e as [svc k m|from until ab|now until ab| |p|ab|rnow runtil]; cbn [wc_ev_ok] in Hok.
   - unfold mut_ok in Hok. apply andb_prop in Hok as [Hok Hst]. apply andb_prop in Hok as [Hfresh Hstamp].
     apply Z.leb_le in Hfresh. destruct HI as [I1 I2].
     destruct svc; cbn [step]; unfold SI; cbn; (split; [|]); try assumption;
@@ -317,6 +317,20 @@ Proof.
     split; (apply TI_weaken with (U := lu s - c_off c); [lia|assumption]).
   - exact HI.
   - cbn [step]. apply SI_sstep with (s := s); [apply sstep_tp_refresh|apply lu_tp_refresh|assumption|assumption].
+  - cbn [step]. unfold resume. destruct (warn s).
+    + apply Z.leb_le in Hok. destruct HI as [I1 I2]. unfold SI. cbn.
+      split; (apply TI_weaken with (U := lu s - c_off c); [lia|assumption]).
+    + apply andb_prop in Hok as [Hnu Hok]. apply Z.leb_le in Hnu.
+      set (s1 := tp_refresh c 0 s).
+      assert (Hlu1 : lu s1 = lu s) by apply lu_tp_refresh.
+      destruct (sstep_tp_refresh c 0 s) as [[Hb1 Hc1] [Hb2 Hc2]]. fold s1 in Hb1, Hb2, Hc1, Hc2.
+      assert (Hh1 : shyp c s1).
+      { destruct Hh as [H1 H2]. unfold shyp, tb_hyp. rewrite Hb1, Hb2. split; assumption. }
+      assert (HI1 : SI c s1).
+      { apply SI_sstep with (s := s); [apply sstep_tp_refresh|assumption|assumption|assumption]. }
+      assert (Hnn1 : lc_nonneg s1 = lc_nonneg s) by (unfold lc_nonneg; rewrite Hb1, Hb2; reflexivity).
+      rewrite <- Hlu1. apply SI_delta; try assumption; [right; lia|].
+      rewrite Hlu1, Hnn1. apply orb_prop in Hok as [Hok|Hok]; [left; apply Z.ltb_lt; assumption|right; assumption].
 Qed.
 
 Lemma run_SI c evs : forall s,
